@@ -2,7 +2,10 @@ package sx
 
 import (
 	"fmt"
+	"os"
 	"go/types"
+
+	"golang.org/x/tools/go/ssa"
 
 	"verifh/internal/smt"
 )
@@ -12,6 +15,8 @@ type mutexState struct {
 	readers int
 	owner   int
 }
+
+type poolState struct{ items []Value }
 
 type onceState struct {
 	done    bool
@@ -107,6 +112,57 @@ func init() {
 			defer func() { st.done = true; st.running = false }()
 			in.call(fr, a[1], nil)
 		}()
+		return nil
+	})
+
+	// sync.Pool: an object handed to Put may come back from any later Get (the runtime may also drop it): Get forks
+	// between "the most recently pooled object" and "a new one" while the pool is non-empty.
+	poolNew := func(in *Interp, fr *frame, p *Value) Value {
+		if st, ok := (*p).(Struct); ok {
+			for _, f := range st {
+				switch fn := f.(type) {
+				case *Closure:
+					if fn != nil {
+						return in.call(fr, fn, nil)
+					}
+				case *ssa.Function:
+					if fn != nil {
+						return in.call(fr, fn, nil)
+					}
+				}
+			}
+		}
+		return Iface{}
+	}
+	reg("(*sync.Pool).Get", func(in *Interp, fr *frame, a []Value) Value {
+		p := a[0].(*Value)
+		if os.Getenv("GOSX_TRACE_POOL") != "" {
+			st, _ := in.side[p].(*poolState)
+			fmt.Fprintf(os.Stderr, "POOL.Get %p state=%v\n", p, st)
+		}
+		st, _ := in.side[p].(*poolState)
+		if st != nil && len(st.items) > 0 && in.decideN(2, "pool:reuse") == 1 {
+			v := st.items[len(st.items)-1]
+			st.items = st.items[:len(st.items)-1]
+			in.res.tag("pool:reused")
+			return v
+		}
+		return poolNew(in, fr, p)
+	})
+	reg("(*sync.Pool).Put", func(in *Interp, fr *frame, a []Value) Value {
+		p := a[0].(*Value)
+		if os.Getenv("GOSX_TRACE_POOL") != "" {
+			fmt.Fprintf(os.Stderr, "POOL.Put %p %T\n", p, a[1])
+		}
+		st, _ := in.side[p].(*poolState)
+		if st == nil {
+			st = &poolState{}
+			in.side[p] = st
+		}
+		if x, ok := a[1].(Iface); ok && x.T == nil {
+			return nil
+		}
+		st.items = append(st.items, a[1])
 		return nil
 	})
 
